@@ -133,11 +133,11 @@ func Verif_H03Crash() {
 	if vrt.Param("aftergc", 1) != 0 {
 		mp := r.index.Primary.(*mhprimary.MultihashPrimary)
 		_, err = mp.GC(context.Background(), 0)
-		vrt.Assert(err == nil, "primary-gc-after-recovery-no-error")
+		vrt.Assert(err == nil, "primary-gc-after-recovery-no-error", "window", window)
 		_, _, err = r.index.VerifGC(context.Background(), true)
 		vrt.Assert(err == nil, "index-gc-after-recovery-no-error")
 	}
-	wctx := "after-recovery"
+	wctx := "after-recovery/" + []string{"ops+flush", "close", "index-gc", "primary-gc", "open"}[window]
 	if _, e := os.Stat(filepath.Join(img, "i.free.gc")); e == nil {
 		wctx += "+leftover-freelist-gc-file" // an interrupted GC left its hand-over file behind
 	}
